@@ -61,10 +61,34 @@ def check(run: Run) -> None:
     for name in ("add_cartesian_vectors", "subtract_cartesian_vectors", "scale_vector", "dot_vectors", "vector_magnitude", "cross_cartesian_vectors",
                  "vector_unit", "project_vector", "reject_cartesian_vector", "diff_cartesian_vector", "integrate_cartesian_vector", "equal_vectors"):
         run.require(any(getattr(s, "name", None) == name for s in mod.tree.body), f"{name} not found in arithmetics.py")
+    vcm = run.src.need("symplyphysics.core.vectors.vectors")
+    vcls = next((c_ for c_ in vcm.tree.body if isinstance(c_, ast.ClassDef) and c_.name == "Vector"), None)
+    run.require(vcls is not None, "class Vector not found")
+    vdunder = {f_.name: f_ for f_ in vcls.body if isinstance(f_, ast.FunctionDef) and f_.name in ("__len__", "__bool__")}
+
     class _R(PyReader):
+
+        def hook_attr(self, base, attr, n):
+            if isinstance(base, VVal) and attr == "_components":
+                return base.components
+            if isinstance(base, VVal) and attr == "_coordinate_system":
+                return base.system
+            return NotImplemented
+
+        def truthy(self, v, n):
+            # `if vector:` - Python asks the class: __bool__, else __len__, else every object is true
+            if isinstance(v, VVal) and "__bool__" in vdunder:
+                return self.truthy(self.call_def(vdunder["__bool__"], [v], {}, {}), n)
+            if isinstance(v, VVal) and "__len__" in vdunder:
+                return self.truthy(self.call_def(vdunder["__len__"], [v], {}, {}), n)
+            return super().truthy(v, n)
 
         def hook_call(self, n, env, fns):
             name = (dotted(n.func) or "").split(".")[-1]
+            if name == "len" and len(n.args) == 1 and isinstance(n.func, ast.Name) and "len" not in env and "__len__" in vdunder:
+                v = self.ev(n.args[0], env, fns)
+                if isinstance(v, VVal):
+                    return self.call_def(vdunder["__len__"], [v], {}, {})
             if name == "simplify" and len(n.args) >= 1 and name not in self.functions:
                 return self.ev(n.args[0], env, fns)  # value-preserving
             if name in ("Abs", "abs") and len(n.args) == 1 and name not in self.functions:
